@@ -17,7 +17,7 @@ import ast
 import copy
 import itertools
 
-PROTECTED = {"_write", "_build", "_segments", "_get_segment_data", "_get_block_class", "__init__"}
+PROTECTED = {"_write", "_build", "_segments", "_get_segment_data", "_get_block_class", "__init__", "_inside_context", "_mode"}
 KEEP_NAMES = {"SIGNATURE", "__all__", "__doc__", "__pdoc__", "type", "nBytes", "format"}
 _counter = itertools.count(1)
 
@@ -199,6 +199,48 @@ def strip_doc(body):
     return body
 
 
+def inline_private_properties(tree):
+    """self._name where _name is a private read-only property consisting of one return: its expression (the `_segments` run
+    derivation, which rules address by name, is left alone)"""
+    n = 0
+    for cls in [st for st in tree.body if isinstance(st, ast.ClassDef)]:
+        props = {}
+        for s_ in cls.body:
+            if isinstance(s_, ast.FunctionDef) and s_.name.startswith("_") and not s_.name.startswith("__") and s_.name not in PROTECTED \
+                    and [ast.unparse(d) for d in s_.decorator_list] == ["property"] and len(s_.args.args) == 1:
+                body = strip_doc(s_.body)
+                if len(body) == 1 and isinstance(body[0], ast.Return) and body[0].value is not None:
+                    props[s_.name] = (s_.args.args[0].arg, body[0].value, s_)
+        if not props:
+            continue
+        # no setter for them
+        for s_ in cls.body:
+            if isinstance(s_, ast.FunctionDef) and any(ast.unparse(d).endswith(".setter") for d in s_.decorator_list):
+                props.pop(s_.name, None)
+
+        class P(ast.NodeTransformer):
+            def __init__(self, selfname):
+                self.selfname = selfname
+
+            def visit_Attribute(self, node):
+                self.generic_visit(node)
+                if isinstance(node.ctx, ast.Load) and isinstance(node.value, ast.Name) and node.value.id == self.selfname and node.attr in props:
+                    sn, expr, _ = props[node.attr]
+                    return ast.copy_location(_subst_names(expr, {sn: ast.Name(id=self.selfname, ctx=ast.Load())}) if sn != self.selfname else copy.deepcopy(expr), node)
+                return node
+
+        for s_ in cls.body:
+            if isinstance(s_, ast.FunctionDef) and s_.args.args and not any(s_ is p[2] for p in props.values()):
+                for _ in range(2):
+                    P(s_.args.args[0].arg).visit(s_)
+        still = {x.attr for x in ast.walk(cls) if isinstance(x, ast.Attribute) and x.attr in props and not any(x in ast.walk(p[2]) for p in props.values())}
+        for name, (_, _, fn) in props.items():
+            if name not in still:
+                cls.body = [b for b in cls.body if b is not fn] or [ast.Pass()]
+                n += 1
+    return n
+
+
 def simple_generator(body):
     """[assignments.., Return(<generator expression>)] for a generator body  `a = ..; for x in X: [for/if ..:] yield E`, else None"""
     pre = []
@@ -218,6 +260,12 @@ def simple_generator(body):
             cur = cur.body[0]
         elif isinstance(cur, ast.Expr) and isinstance(cur.value, ast.Yield) and cur.value.value is not None and gens:
             elt = cur.value.value
+            break
+        elif isinstance(cur, ast.Expr) and isinstance(cur.value, ast.YieldFrom) and gens:
+            # yield from X   is   for _y in X: yield _y
+            v = f"_y{next(_counter)}"
+            gens.append(ast.comprehension(target=ast.Name(id=v, ctx=ast.Store()), iter=cur.value.value, ifs=[], is_async=0))
+            elt = ast.Name(id=v, ctx=ast.Load())
             break
         else:
             return None
@@ -761,6 +809,7 @@ def normalise_module(tree: ast.Module):
     if mod or classes:
         ConstSubst(mod, classes, bases).visit(tree)
     info["closures"] = inline_closures(tree)
+    info["private_properties"] = inline_private_properties(tree)
     AppendLoops().visit(tree)
     Canon().visit(tree)
     LoopNorm().visit(tree)
@@ -930,8 +979,6 @@ def _kills(st, paths, names, attrs, value=None):
         if isinstance(n, ast.Subscript) and isinstance(n.ctx, (ast.Store, ast.Del)):
             p = ast.unparse(n.value)
             if any(q == p or q.startswith(p + ".") or p.startswith(q + ".") for q in paths) or _root(n.value) in names and not paths:
-                return True
-            if _root(n.value) in names and any(q.split(".")[0] == _root(n.value) for q in paths | names):
                 return True
         if isinstance(n, ast.Call) and ast.unparse(n.func) not in PURE_CALLS:
             f = n.func
@@ -1369,6 +1416,13 @@ class Canon(ast.NodeTransformer):
 
     def visit_Try(self, node):
         self.generic_visit(node)
+        # try: x = L[-1]  except IndexError: A  else: B     ==>    if L: x = L[-1]; B  else: A        (L a list: indexing its end fails iff it is empty)
+        if len(node.body) == 1 and isinstance(node.body[0], ast.Assign) and len(node.body[0].targets) == 1 and isinstance(node.body[0].targets[0], ast.Name) \
+                and isinstance(node.body[0].value, ast.Subscript) and ast.unparse(node.body[0].value.slice) in ("-1", "0") and not node.finalbody and len(node.handlers) == 1 \
+                and node.handlers[0].type is not None and ast.unparse(node.handlers[0].type) == "IndexError" and node.handlers[0].name is None \
+                and not any(isinstance(x, ast.Call) for x in ast.walk(node.body[0].value)):
+            L = node.body[0].value.value
+            return ast.copy_location(ast.If(test=copy.deepcopy(L), body=[node.body[0]] + node.orelse, orelse=node.handlers[0].body), node)
         # try: A  except E: H (always leaves)  else: B      ==>   try: A  except E: H ;  B
         if node.orelse and not node.finalbody and node.handlers and all(always_exits(h.body) for h in node.handlers):
             rest = node.orelse
